@@ -86,6 +86,20 @@ def c11_items(t, rnd):
                 body = "TITLE=" + "".join(rnd.choice(["a", "é", "語", "=", " ", "😀"]) for _ in range(n))
                 fields.append(B(body) if n else rnd.choice([B(""), B("X=")]))
             add("comment", [si(), {"kind": "comment", "vendor": B(rnd.choice(["", "v", "référence libFLAC 1.4.3 語"])), "fields": fields}])
+    # long comment strings (vendor and fields) of mixed 1- / 2- / 3- / 4-byte characters, lengths around 4 KiB and 8 KiB page edges:
+    # wherever a reader cuts a long string into pieces, some character straddles the cut
+    for n in (4094, 4095, 4096, 4097, 4099, 8190, 8193, 12289):
+        for shift in (0, 1, 2, 3):
+            body = ("a" * shift) + "".join(["\u00e9", "\u8a9e", "\U0001F600", "z"][(i + shift) % 4] for i in range(n))
+            raw = body.encode()[:n + 16]
+            while True:
+                try:
+                    raw.decode()
+                    break
+                except UnicodeDecodeError:
+                    raw = raw[:-1]
+            txt = raw.decode()
+            add("comment-long", [si(), {"kind": "comment", "vendor": B(txt if shift % 2 else "v"), "fields": [B("TITLE=" + txt), B("X=y")]}])
     # comment fields that an accessor interprets (channel mask): well-formed, malformed, non-ASCII at every small offset
     for val in ("0x3F", "0X3F", "0x0", "0x", "0", "x", "", "0xZZ", "0x100000000", "0xFFFFFFFF", "3F", " 0x3F", "0x 3F", "0é3", "€1", "0x€", "é", "00é",
                 "0xé", "語0x3", "0x" + "F" * 40, "-0x1", "0x-1", "0x+1"):
